@@ -12,6 +12,7 @@ import difflib
 import json
 import re
 
+import c15_args as AR
 import c15_corpus as C
 import c15_inside as IN
 import c15_layout as L
@@ -19,7 +20,7 @@ import c15_model as M
 import c15_tokcases as TC
 import os
 
-from lib import (Check, COMMON_TRUSTED, VERIF, compile_batch, eval_cases, known_for, run_py)
+from lib import (Check, COMMON_TRUSTED, VERIF, compile_batch, coq_bool, coq_list, eval_cases, known_for, run_py)
 
 PROP = "C15"
 RUNNER = VERIF / "harness" / "c15_run.py"
@@ -49,14 +50,22 @@ def test_suite_inputs():
     return out, None
 
 
+ALL_FIX_PROBES = dict(IN.FIX_PROBES, **AR.FIX_PROBES)
+FINDING_OF = dict(IN.FINDING_OF, **AR.FINDING_OF)
+SCOPE = dict(IN.SCOPE, **AR.SCOPE)
+
+
+PINNED_FIXES = ("raw-bracket-text", "scoreboard-argument")
+
+
 def fix_probes():
     """which fixes of recorded defects does this tree have (canonical inputs, c15_inside.FIX_PROBES)?"""
-    names = sorted(IN.FIX_PROBES)
-    res = compile_batch([dict(src=IN.FIX_PROBES[n][0], cert=C.FULL_CERT) for n in names], chunk=10)
+    names = sorted(ALL_FIX_PROBES)
+    res = compile_batch([dict(src=ALL_FIX_PROBES[n][0], cert=C.FULL_CERT) for n in names], chunk=10)
     out = {}
     for n, r in zip(names, res):
         text = "\n".join(v for k, v in sorted(r.get("files", {}).items()) if k.endswith(".mcfunction")) if r["ok"] else ""
-        out[n] = bool(r["ok"] and IN.FIX_PROBES[n][1](text))
+        out[n] = bool(r["ok"] and ALL_FIX_PROBES[n][1](text))
     return out
 
 
@@ -67,6 +76,9 @@ def build_corpus(rng, tier, enabled=()):
     for e in IN.programs(C.PRELUDE, set(enabled)):
         progs.append(dict(src=e["src"], header=None, cert=C.FULL_CERT, origin="inside-brackets", kind=e["kind"], needs=e["needs"],
                           marks=e["marks"], no_comments=e["no_comments"]))
+    for e in AR.programs(set(enabled)):
+        progs.append(dict(src=e["src"], header=e["header"], cert=C.FULL_CERT, origin="argument-text", kind=e["kind"], usage=e["usage"],
+                          needs=e["needs"], marks=e["marks"], no_comments=e["no_comments"], call=e["call"]))
     for _ in range(30 if tier == "quick" else 300):
         progs.append(dict(src=C.gen_program(rng, rng.randint(1, 4)), header=None, cert=C.FULL_CERT, origin="generated"))
     return progs, note
@@ -384,6 +396,159 @@ def model_pairs(ck, sample, rng, tier, case_fix):
     return len(pairs), [pairs[i] for i in bad], errs
 
 
+# --------------------------------------------------------------------------- argument texts (round 4)
+
+ARG_HEADER = ("From Coq Require Import ZArith String List Bool Ascii.\n"
+              "From JMCV Require Import Model.Layout Model.LayoutArg Run.Common Run.C15 Run.C15Arg.\n"
+              "Import ListNotations.\nOpen Scope string_scope.\n")
+
+
+def call_contents(src: str, stmt_src: str):
+    """texts between the parentheses of the calls `name( ... )` that a statement makes at its top level"""
+    out = []
+    for m in re.finditer(r"[A-Za-z_][A-Za-z0-9_.]*\(", stmt_src):
+        depth, i, q, esc = 0, m.end() - 1, None, False
+        while i < len(stmt_src):
+            c = stmt_src[i]
+            if q:
+                if esc:
+                    esc = False
+                elif c == "\\":
+                    esc = True
+                elif c == q:
+                    q = None
+            elif c in "'\"`":
+                q = c
+            elif stmt_src.startswith("//", i):
+                j = stmt_src.find("\n", i)
+                i = len(stmt_src) if j < 0 else j
+                continue
+            elif c == "(":
+                depth += 1
+            elif c == ")":
+                depth -= 1
+                if depth == 0:
+                    out.append(stmt_src[m.end():i])
+                    break
+            i += 1
+    return out
+
+
+def argument_tie(ck, progs, rng, tier, case_fix, fixes):
+    """(d) clean_up_paren_token and (e) the texts a @lazy call substitutes for its parameters, observed while compiling
+    corpus programs and re-layouts of them, against Model.LayoutArg; (f) the theorem's instance on (call, re-layout) pairs."""
+    lay = L.layouts(rng)
+    names = [n for n in lay if n not in ("nasty_comments",)]
+    arg_progs = [p for p in progs if p.get("origin") == "argument-text" and not p.get("header")]
+    others = [p for p in progs if p.get("origin") in ("inside-brackets", "statement") and not p.get("header")]
+    rng.shuffle(others)
+    others = others[: (60 if tier == "quick" else 400)]
+    jobs = []
+    for p in arg_progs + others:
+        jobs.append(job_of(p))
+        for n in rng.sample(names, 2 if tier == "quick" else 4):
+            try:
+                jobs.append(job_of(p, lay[n](p["src"])))
+            except AssertionError:
+                pass
+    res = []
+    for i in range(0, len(jobs), 60):
+        res += run_py(RUNNER, dict(op="args", jobs=jobs[i:i + 60]), timeout=900)
+    cleans, cseen, args, aseen, arrows, wseen = [], set(), [], set(), [], set()
+    skipped = dict(non_ascii=0, backtick=0)
+    forms = {}
+    lazy_calls = sum(r.get("lazy_calls", 0) for r in res)
+    lazy_observed = sum(r.get("lazy_observed", 0) for r in res)
+    for r in res:
+        for c in r.get("cleans", []):
+            key = json.dumps(c, sort_keys=True)
+            if key in cseen:
+                continue
+            cseen.add(key)
+            if not M.is_ascii(c["tok"][3]) or c["tok"][0] not in M.TYPES or (c["ok"] and not M.is_ascii(c["text"])):
+                skipped["non_ascii"] += 1
+                continue
+            cleans.append(c)
+        for b in r.get("bound", []):
+            key = json.dumps(b, sort_keys=True)
+            if key in aseen:
+                continue
+            aseen.add(key)
+            toks = b["tokens"]
+            if not toks:
+                continue
+            if not all(M.is_ascii(t[3]) and t[0] in M.TYPES for t in toks) or not M.is_ascii(b["text"]):
+                skipped["non_ascii"] += 1
+                continue
+            if any(t[6] == "`" for t in toks):
+                skipped["backtick"] += 1
+                continue
+            forms[b["form"]] = forms.get(b["form"], 0) + 1
+            if toks[0][0] == "FUNC":
+                if not fixes.get("arrow-argument-in-string") and len(toks) == 1 and (toks[0][7] is None or M.is_ascii(toks[0][7])):
+                    arrows.append(b)
+            else:
+                args.append(b)
+    cap = 3000 if tier == "quick" else 20000
+    cleans, args = cleans[:cap], args[:cap]
+    cterms = [f"(mkClean {coq_bool(case_fix)} {coq_bool(c['nbt'])} {M.rtok_term(c['tok'])} "
+              f"{'(Some ' + M.coq_string(c['text']) + ')' if c['ok'] else 'None'})" for c in cleans]
+    aterms = [f"(mkArg {coq_bool(case_fix)} {coq_list(M.rtok_term(t[:6]) for t in b['tokens'])} {M.coq_string(b['text'])})" for b in args]
+    wterms = [f"(mkArrow {'None' if b['tokens'][0][7] is None else '(Some ' + M.coq_string(b['tokens'][0][7]) + ')'} "
+              f"{M.coq_string(b['tokens'][0][3])} {M.coq_string(b['text'])})" for b in arrows]
+    cbad, e1 = eval_cases(PROP, ARG_HEADER, cterms, per_file=400, checker="clean_mismatches", prefix="clean")
+    cdec, e2 = eval_cases(PROP, ARG_HEADER, cterms, per_file=400, checker="clean_declined", prefix="cleand")
+    abad, e3 = eval_cases(PROP, ARG_HEADER, aterms, per_file=400, checker="arg_mismatches", prefix="arg")
+    adec, e4 = eval_cases(PROP, ARG_HEADER, aterms, per_file=400, checker="arg_declined", prefix="argd")
+    wbad, e5 = eval_cases(PROP, ARG_HEADER, wterms, per_file=400, checker="arrow_mismatches", prefix="arrow") if wterms else ([], [])
+    # (f) model-level pairs: the contents of the calls of the argument-text entries, base and re-laid-out
+    pairs = []
+    for p in arg_progs:
+        stmt = p.get("call", "").replace(AR.MARK, " ")
+        for content in call_contents(p["src"], stmt):
+            if not M.is_ascii(content) or "`" in content:
+                continue
+            for n in rng.sample(names, 2):
+                try:
+                    new = lay[n]("(" + content + ")")
+                except AssertionError:
+                    continue
+                if M.is_ascii(new) and new.startswith("(") and new.endswith(")"):
+                    pairs.append((content, new[1:-1]))
+    pairs = pairs[: (150 if tier == "quick" else 600)]
+    pterms = [f"(mkArgPair {coq_bool(case_fix)} {M.coq_string(a)} {M.coq_string(b)})" for a, b in pairs]
+    pbad, e6 = eval_cases(PROP, ARG_HEADER, pterms, per_file=50, checker="argpair_mismatches", prefix="argpair", timeout=900)
+    ptriv, e7 = eval_cases(PROP, ARG_HEADER, pterms, per_file=50, checker="argpair_trivial", prefix="argpairt", timeout=900)
+    info = dict(programs_traced=len(jobs), clean_up_calls=len(cleans), clean_up_error_cases=sum(1 for c in cleans if not c["ok"]),
+                clean_up_mismatches=len(cbad), clean_up_declined=len(cdec), clean_up_nbt_mode=sum(1 for c in cleans if c["nbt"]),
+                clean_up_by_bracket={k: sum(1 for c in cleans if c["tok"][0] == k) for k in ("PAREN_CURLY", "PAREN_SQUARE", "PAREN_ROUND")},
+                lazy_calls=lazy_calls, lazy_calls_observed=lazy_observed, lazy_arguments=len(args), lazy_argument_mismatches=len(abad),
+                lazy_arguments_declined=len(adec), lazy_arguments_with_bracket=sum(1 for b in args if any(t[0].startswith("PAREN") for t in b["tokens"])),
+                lazy_arguments_multi_token=sum(1 for b in args if len(b["tokens"]) > 1), lazy_argument_forms=forms,
+                arrow_arguments=len(arrows), arrow_mismatches=len(wbad), skipped=skipped,
+                model_pairs=len(pairs), model_pairs_nontrivial=len(pairs) - len(ptriv), model_pair_mismatches=len(pbad))
+    problems = []
+    for e in e1 + e2 + e3 + e4 + e5 + e6 + e7:
+        problems.append(dict(kind="correspondence-file-failed", log=e))
+    if cbad:
+        problems.append(dict(kind="clean_up_paren_token-correspondence-differs", n=len(cbad),
+                             cases=[dict(token=cleans[i]["tok"], is_nbt=cleans[i]["nbt"], real=cleans[i].get("text", cleans[i].get("exc"))) for i in cbad[:3]]))
+    if abad:
+        problems.append(dict(kind="lazy-argument-text-correspondence-differs", n=len(abad),
+                             cases=[dict(tokens=args[i]["tokens"], real=args[i]["text"]) for i in abad[:3]]))
+    if wbad:
+        problems.append(dict(kind="lazy-arrow-argument-text-correspondence-differs", n=len(wbad),
+                             cases=[dict(tokens=arrows[i]["tokens"], real=arrows[i]["text"]) for i in wbad[:3]]))
+    if pbad:
+        problems.append(dict(kind="model-argument-pair-differs", note="Model.LayoutArg.argument_text differs on a (call arguments, re-layout) pair",
+                             pairs=[dict(a=pairs[i][0], b=pairs[i][1]) for i in pbad[:3]]))
+    if lazy_calls and (lazy_observed == 0 or not args):
+        problems.append(dict(kind="lazy-argument-text-not-observable",
+                             note="@lazy calls were compiled but no substitution table was seen at substitute_params: the tie of "
+                                  "Model.LayoutArg.argument_text to handle_lazy cannot be checked on this tree"))
+    return info, problems
+
+
 # --------------------------------------------------------------------------- main
 
 SYMMETRIC_LAYOUTS = ("single_line", "token_per_line", "wide")
@@ -447,6 +612,20 @@ def inside_cov(progs, accepted):
     return out
 
 
+def args_cov(progs, accepted):
+    """per (call family, usage of the parameter): entries in the corpus, accepted, marked places inside the arguments"""
+    acc = set(accepted)
+    out = {}
+    for i, p in enumerate(progs):
+        if p.get("origin") == "argument-text":
+            d = out.setdefault(p["kind"].split("/")[0] + ":" + p["usage"], dict(entries=0, accepted=0, places=0))
+            d["entries"] += 1
+            if i in acc:
+                d["accepted"] += 1
+                d["places"] += p.get("marks", 0)
+    return out
+
+
 def main(tier: str) -> int:
     ck = Check(PROP, tier)
     ck.cov["trusted_base"] = COMMON_TRUSTED + [
@@ -460,21 +639,43 @@ def main(tier: str) -> int:
         "the metamorphic runs and the tokenizer correspondence only",
         "harness/c15_inside.py: the inventory of statement kinds x bracket kinds (hand-written from lexer_func_content.py, "
         "command/nbt_operation.py, command/condition.py, command/_flow_control.py, command/utils.py) that puts a layout run inside every bracket",
+        "Model/LayoutArg.v: hand-written port of utils.clean_up_paren_token (default keyword callback; repr()/json.dumps on ASCII text), "
+        "Tokenizer.merge_tokens([t], use_full_string=True) and PreFunction.__argument_text (plain argument; arrow-function argument = raw "
+        "texts); tied on every run by exact equality with every clean_up_paren_token call and with the text every @lazy call hands to "
+        "substitute_params for each parameter (observed at handle_lazy / substitute_params), made while compiling corpus programs and "
+        "re-layouts; `key=+value` / backtick-string arguments and programs with #define macros are outside this tie",
+        "harness/c15_args.py: the inventory of calls whose argument text is substituted into a body (@lazy, Hardcode.*, built-ins, #define) "
+        "x bracket kinds x use of the parameter (code, '..', \"..\", `..`, Hardcode.calc)",
         "outside the model: what the lexer and the commands do with tokens (they may read positions only through is_connected "
         "and CustomOrder, and bracket text only by re-tokenising it - checked by the metamorphic runs, not proved)",
     ]
-    pr = ck.proof(extra_targets=["Run/C15.vo"])
+    import time
+    t0 = time.time()
+    phases = {}
 
-    fixes = fix_probes()
+    def lap(name):
+        nonlocal t0
+        phases[name] = round(time.time() - t0, 1)
+        t0 = time.time()
+
+    pr = ck.proof(extra_targets=["Run/C15.vo", "Run/C15Arg.vo"])
+    lap("proof")
+
+    probed_fixes = fix_probes()
+    # repairs that are part of /repo (fix: commits): their inventory entries are ALWAYS in the corpus and never explained
+    # by a finding, so that a tree that loses a repair is reported again; the probes are kept in the evidence only
+    fixes = dict(probed_fixes, **{n: True for n in PINNED_FIXES})
     known_ids = {f.get("id") for f in known_entries()}
     demand = os.environ.get("VERIF_C15_DEMAND") == "1"
-    enabled = {n for n in fixes if fixes[n] or demand or IN.FINDING_OF[n] in known_ids}
+    enabled = {n for n in fixes if fixes[n] or demand or FINDING_OF[n] in known_ids}
     progs, note = build_corpus(ck.rng, tier, enabled)
     lstats = {}
     if "C15-hardcode-calc-mention-in-comment" in known_ids or demand:
         # a comment that MENTIONS `Hardcode.calc(` with other text, inside a Hardcode.* / @lazy body (recorded defect)
         L.NASTY_COMMENTS["code_like"] = L.NASTY_COMMENTS["code_like"] + ["see Hardcode.calc(x)"]
+    lap("corpus")
     base, accepted, npairs, failing, layout_names, sym = metamorphic(ck, progs, ck.rng, tier, lstats)
+    lap("metamorphic")
 
     # ---- classify differing pairs
     reported, known_n, viol_n = set(), 0, 0
@@ -531,18 +732,25 @@ def main(tier: str) -> int:
     gated = []
     for oi, (rank, (i, name, src, r)) in enumerate(order):
         p = progs[i]
-        if oi in pre_known or not p.get("needs") or fixes.get(p["needs"]) or IN.FINDING_OF[p["needs"]] not in known_ids:
+        if oi in pre_known or not p.get("needs") or fixes.get(p["needs"]) or FINDING_OF[p["needs"]] not in known_ids:
             continue
         al = L.aligned_segments(p["src"], src)
         if al is None:
             continue
         new = [t for k, t in al[1] if k == "lay"]
-        gated.append((oi, apply_runs(al[0], {k: strip_comments_run(t) for k, t in enumerate(new)})))
+        scope = SCOPE[p["needs"]]
+        if isinstance(scope, tuple):
+            # ("call", name): the defect is about the layout INSIDE the parentheses of the calls of `name`: the same
+            # re-layout with those runs as in the base must give the base output
+            gated.append((oi, apply_runs(al[0], {k: t for k, t in enumerate(new)
+                                                 if not inside_call(p["src"], run_offset(al[0], k), scope[1])})))
+        else:
+            gated.append((oi, apply_runs(al[0], {k: strip_comments_run(t) for k, t in enumerate(new)})))
     gres = compile_batch([job_of(progs[order[oi][1][0]], text) for oi, text in gated], chunk=40)
     for (oi, _), g in zip(gated, gres):
         p = progs[order[oi][1][0]]
-        if IN.SCOPE[p["needs"]] == "all" or same_result(base[order[oi][1][0]], g):
-            pre_known[oi] = next(f for f in known_entries() if f.get("id") == IN.FINDING_OF[p["needs"]])
+        if SCOPE[p["needs"]] == "all" or same_result(base[order[oi][1][0]], g):
+            pre_known[oi] = next(f for f in known_entries() if f.get("id") == FINDING_OF[p["needs"]])
     for oi, (rank, (i, name, src, r)) in enumerate(order):
         p = progs[i]
         if oi in pre_known:
@@ -558,8 +766,12 @@ def main(tier: str) -> int:
         kf = known_class(p, base[i], changed, msrc, mres)
         if kf is None and p.get("needs") and not fixes.get(p["needs"]):
             # an inventory statement that is in the corpus only because its recorded defect is LISTED
-            want = IN.FINDING_OF[p["needs"]]
-            if IN.SCOPE[p["needs"]] == "all" or any("//" in v for v in (changed or {}).values()):
+            want = FINDING_OF[p["needs"]]
+            scope = SCOPE[p["needs"]]
+            al0 = L.aligned_segments(p["src"], msrc)
+            if (scope == "all" or (scope == "comments" and any("//" in v for v in (changed or {}).values())) or
+                    (isinstance(scope, tuple) and changed and al0 is not None and
+                     all(inside_call(p["src"], run_offset(al0[0], k), scope[1]) for k in changed))):
                 kf = next((f for f in known_entries() if f.get("id") == want), None)
         if kf:
             ck.known(kf["id"], kf["what"])
@@ -584,19 +796,35 @@ def main(tier: str) -> int:
                           layout=name, base=job_of(progs[i]), relayout=job_of(progs[i], src), expected="identical virtual file map"))
 
     # ---- model tie
+    lap("classification")
     probe = run_py(RUNNER, dict(op="probe"), timeout=60)
+    info_probe = dict(probe)
+    # Token._macro_end / Token.end (fix: adjacency), the end of string literals (fix 81307c5) and the switch-label fix of
+    # statement termination are part of /repo: the model is always the REPAIRED one - the variants are no longer selected
+    # by probing the tree (a tree that loses a repair is reported by the tie); the probe is kept in the evidence only
+    probe["has_end"] = True
+    probe["case_fix"] = True
     info, problems, sample = model_tie(ck, progs, ck.rng, tier, bool(probe["has_end"]), bool(probe["case_fix"]))
-    info["tree_variants"] = probe
+    info["tree_variants"] = info_probe
     for pb in problems:
         pb["note"] = ("the Coq model (of the repaired tokenizer / is_connected) no longer describes the code; "
                       "see the layout-changes-output replays of this run for failing inputs" if viol_n else
                       "the Coq model no longer describes the code and the metamorphic search found no failing input")
+        ck.violation(pb, no_input=True)
+    lap("tokenizer_tie")
+    ainfo, aproblems = argument_tie(ck, progs, ck.rng, tier, bool(probe["case_fix"]), fixes)
+    lap("argument_text_tie")
+    for pb in aproblems:
+        pb["note"] = pb.get("note") or ("Model.LayoutArg (clean_up_paren_token / the text a @lazy call substitutes for a parameter) no longer "
+                                        "describes the code; " + ("see the layout-changes-output replays of this run for failing inputs" if viol_n
+                                                                  else "the metamorphic search found no failing input"))
         ck.violation(pb, no_input=True)
     n_pairs_model, bad_pairs, perr = model_pairs(ck, sample, ck.rng, tier, bool(probe["case_fix"]))
     if bad_pairs or perr:
         ck.violation(dict(kind="model-pair-differs", note="Model.Layout.shape_parse differs on a (program, re-layout) pair",
                           pairs=[dict(a=a, b=b) for a, b in bad_pairs[:3]], log=perr[:1]), no_input=True)
 
+    lap("model_pairs")
     origins = {}
     for i in accepted:
         o = progs[i].get("origin")
@@ -608,15 +836,17 @@ def main(tier: str) -> int:
              "adversarial shapes, random nested programs) x 11 re-layouts (single line, one token per line, random runs, tabs, "
              "trailing // comments, newline inside brackets, wide, mixed comments; round 1: a comment GLUED to every token, "
              "glued comments on a quarter of the runs, nasty comment content glued or spaced + leading comment line + "
-             "comment ended by end of file) -> byte-identical file maps; rejected programs must stay rejected in the "
+             "comment ended by end of file; round 4: calls whose bracket arguments are substituted as TEXT into a body, the parameter used "
+             "as code / inside '..', \"..\", `..` strings / inside Hardcode.calc) -> byte-identical file maps; rejected programs must stay rejected in the "
              "canonical layouts (relayout is symmetric); distinct = accepted programs x layouts; tie: each distinct "
              "Tokenizer.parse call / is_connected decision is one case (compiles of the corpus + the directed "
              "comment-behind-every-token grammar)",
         programs=len(progs), accepted_programs=len(accepted), accepted_by_origin=origins, relayout_pairs=npairs,
         layouts=layout_names, comments_glued_behind=lstats.get("glued_after"), comment_content_classes=lstats.get("content"),
         file_frames=lstats.get("frames"), symmetric_check=sym, differing_pairs=len(failing),
-        inside_brackets=inside_cov(progs, accepted), fixes_present=fixes, gated_entries_enabled=sorted(enabled), differing_by_layout=per_layout, known_pairs=known_n,
-        disagreements_checked=len(failing), corpus_note=note, model_tie=info, model_pairs_evaluated=n_pairs_model,
+        inside_brackets=inside_cov(progs, accepted), fixes_present=probed_fixes, fixes_pinned=list(PINNED_FIXES), gated_entries_enabled=sorted(enabled), differing_by_layout=per_layout, known_pairs=known_n,
+        disagreements_checked=len(failing), corpus_note=note, phase_seconds=phases, model_tie=info, argument_text_tie=ainfo,
+        argument_text_entries=args_cov(progs, accepted), model_pairs_evaluated=n_pairs_model,
         samples=[dict(base=progs[i]["src"][:200]) for i in accepted[:2]],
     ))
     return ck.finish()
